@@ -45,3 +45,7 @@ claim("C13", "bounded-exhaustive enumeration of ordered operation sequences (uni
       "Every ordered sequence of <=5 (quick) / <=6 (thorough) operations over union/insert alphabets plus three rewrite-iteration operations is executed; after every step every handle ever returned must canonicalise idempotently to a live class, compare, extract (extracted term looks up to it), slot sets only shrink, every pair that once compared equal (also up to a slot swap) still does, and the ProgressMeasure moves in the documented lexicographic direction.",
       "At most 40 handles tracked per execution; rewrite rules are Sym-language rules chosen to merge, eliminate and introduce nodes.",
       "DESIGN.md 5 C13")
+claim("C11", "bounded-exhaustive enumeration of operation sequences, each executed under five injective slot renamings on the real e-graph, differential comparison of observations",
+      "Every ordered sequence of <=3 (thorough 4) operations (unions, insertions, rewrite iterations) is run with numeric, order-reversed numeric, reverse-sorting textual, fresh-form $f<n> and shifted slot names; all eq answers, returned-invocation slots, slot sets, symmetry counts, ProgressMeasure, node count, class profile, min-size analysis data and best costs (AstSize, per-operator weighted) must be identical after mapping back.",
+      "Differential oracle; the five renamings are fixed (they include the order-reversing and fresh-kind cases the statement names).",
+      "DESIGN.md 5 C11")
